@@ -558,6 +558,48 @@ func init() {
 			}
 		})
 
+	register("C18.R3", "whole-file overwrite on every successful generation: in gen, Commit runs for every package with non-empty Content under no other condition, and gen itself never reads the existing output (the only file gen reads is the header file)",
+		func(c *Ctx, r *R) {
+			fi := r.Need(c.Fn(c.Cmd, "genCmd.Execute"), "genCmd.Execute")
+			if fi == nil {
+				return
+			}
+			n := 0
+			for _, cl := range fi.callsTo(pathW + ".GenerateResult.Commit") {
+				n++
+				loop := fi.enclosingLoop(cl)
+				if loop == nil {
+					r.Bad("Commit/in-package-loop", cl.Pos(), "Commit is not called from the loop over packages")
+					continue
+				}
+				extra := 0
+				var extras []string
+				for _, g := range fi.GuardsWithin(cl, loop) {
+					if x, ne, ok := fi.lenTest(g); ok && ne {
+						if f := fi.selField(x); f != nil && f.Name() == "Content" {
+							continue
+						}
+					}
+					extra++
+					extras = append(extras, exprShort(g.Expr))
+				}
+				r.Check(extra == 0, "Commit/unconditional-for-non-empty-content", cl.Pos(), "every package with generated content is written, whatever is on disk (extra conditions: %v)", extras)
+				rv := fi.varOf(recvOf(cl))
+				rs, _ := loop.(*ast.RangeStmt)
+				r.Check(rs != nil && rv != nil && fi.varOf(rs.Value) == rv, "Commit/of-this-package", cl.Pos(), "the result committed is the loop's own element")
+			}
+			r.Floor("Commit calls in gen", n, 1)
+			rr := c.reach(fi)
+			for name, refs := range rr.ext {
+				if !fileReaders[name] {
+					continue
+				}
+				for _, ref := range refs {
+					r.Check(ref.from.Name == "newGenerateOptions", "gen/file-read:"+name+"@"+ref.from.Name, ref.pos.Pos(), "gen reads %s only for the header file (via %s)", name, rr.chain(ref.from))
+				}
+			}
+		})
+
 	register("C18.R4", "diff = gen: both commands build their options with the same function, forward tags the same way and call Generate with the same working directory, environment and package patterns",
 		func(c *Ctx, r *R) {
 			sig := map[string][]string{}
